@@ -25,6 +25,36 @@ theorem inv_preserved (s : State) (o : Op) (s' : State) (out : Out)
 theorem inv_history (os : List Op) (s s' : State) (outs : List Out)
     (h : runOps s os = some (s', outs)) (hI : Inv s) : Inv s' := run_inv os s s' outs h hI
 
+/-- **Cells outside the live window are nil.** Every slot of `entries` that is not one of the
+`readable` entries starting at `readIndex` holds nil: initially, and after every operation
+(`Ring.read` clears what it hands out, `Ring.write` only fills free slots) — so an entry is
+referenced by the ring only while it is stored, and a read can never hand out a stale entry. -/
+theorem clean_init_empty (count : Nat) : Clean (newEmpty count) := clean_newEmpty count
+
+theorem clean_init_full (es : List Nat) : Clean (newFull es) := clean_newFull es
+
+theorem clean_preserved (s : State) (o : Op) (s' : State) (out : Out)
+    (h : step s o = some (s', out)) (hI : Inv s) (hC : Clean s) : Clean s' :=
+  step_clean s o s' out h hI hC
+
+theorem clean_history (os : List Op) : ∀ (s s' : State) (outs : List Out),
+    runOps s os = some (s', outs) → Inv s → Clean s → Inv s' ∧ Clean s' := by
+  induction os with
+  | nil => intro s s' outs h hI hC; simp only [runOps] at h; cases h; exact ⟨hI, hC⟩
+  | cons o os ih =>
+    intro s s' outs h hI hC
+    simp only [runOps] at h
+    cases hs : step s o with
+    | none => rw [hs] at h; cases h
+    | some p =>
+      rw [hs] at h
+      dsimp only at h
+      cases hr : runOps p.1 os with
+      | none => rw [hr] at h; cases h
+      | some q =>
+        rw [hr] at h; cases h
+        exact ih p.1 q.1 q.2 hr (step_inv s o p.1 p.2 hs hI) (step_clean s o p.1 p.2 hs hI hC)
+
 /-! ### Refinement of the bounded FIFO -/
 
 /-- `Write` refines the FIFO's write: same enabledness (would block ⇔ queue full, not closed,
